@@ -325,7 +325,11 @@ func (qr *QR) SolveVecTo(dst *VecDense, trans bool, b Vector) error {
 	}
 
 	r, c := qr.qr.Dims()
-	if _, bc := b.Dims(); bc != 1 {
+	br, bc := b.Dims()
+	if bc != 1 {
+		panic(ErrShape)
+	}
+	if (trans && br != c) || (!trans && br != r) {
 		panic(ErrShape)
 	}
 
